@@ -398,7 +398,7 @@ class Check:
             if kf is not None:
                 known_hit.append((kf, v))
                 continue
-            path = self.write_replay(dict(property=self.pid, kind='concrete', what=v['what'], replay=v['replay'],
+            path = self.write_replay(dict(property=self.pid, kind='concrete', what=v['what'], replay=v['replay'], key=v['key'],
                                           seed=self.seed, tier=self.tier,
                                           how_to_replay=f'./check {self.pid} --replay <this file>'))
             lines.append(f'VIOLATION property={self.pid} replay={path}')
